@@ -380,7 +380,7 @@ def exact_rel(sysm):
     return [tuple(vecmat([Fraction(x) - o[j] for j, x in enumerate(p)], Vi)) for p in sysm.atoms.pos.tolist()]
 
 
-def gen_system(rng, am, fam_box=None, extra=(), far=False, history=None):
+def gen_system(rng, am, fam_box=None, extra=(), far=False, history=None, pbc=None):
     """random cell + 1-4 atoms on the 1/8 grid (faces included); `extra`: further atoms given by exact relative
     coordinates (Fractions) or a function box -> such a list, appended when they are at least 1e-3 (relative) away from
     every other atom; `far`: a
@@ -409,7 +409,8 @@ def gen_system(rng, am, fam_box=None, extra=(), far=False, history=None):
     # half of the systems name their types: an atom type is its number together with what the number stands for
     syms = rng.sample(['Al', 'Ni', 'Cu', 'Fe', 'O'], len(set(atype))) if rng.random() < 0.5 else None
     case = {'vects': box.vects.tolist(), 'origin': box.origin.tolist(), 'spos': [[float(x) for x in sp] for sp in spos],
-            'atype': atype, 'props': gen_props(rng, n), 'pbc': gen_pbc(rng), 'symbols': syms, 'history': history or []}
+            'atype': atype, 'props': gen_props(rng, n), 'pbc': list(pbc) if pbc is not None else gen_pbc(rng), 'symbols': syms,
+            'history': history or []}
     sysm = build_system(am, case)
     if history:
         fam += '+history'
@@ -825,6 +826,15 @@ def correspond(ctx):
         sysm, fam, _, U, d = gen_case_U(rng, am, it, ctx.n(5, 8))
         arg, form, _ = gen_uvws_form(rng, U) if it >= len(FIXED_U) else (U, 'int-list', True)
         _corr_rotate(ctx, am, sysm, fam, U, d, 'rotate', arg, form)
+    # --- the identity shortcut (in every accepted form of the vectors) and one more matrix under each of the 8 pbc settings:
+    #     the re-oriented cell is fully periodic, atoms on the faces of a non-periodic direction included ---
+    for pbc in PBCS:
+        for U in (FIXED_U[0], rng.choice(FIXED_U[1:])):
+            sysm, fam, _ = gen_system(rng, am, far=rng.random() < 0.5, pbc=pbc)
+            arg, form, _ = gen_uvws_form(rng, U)
+            while form == 'float-outside-tolerance':
+                arg, form, _ = gen_uvws_form(rng, U)
+            _corr_rotate(ctx, am, sysm, fam, [list(r) for r in U], _det3(U), 'rotate-pbc', arg, form)
     # --- hexagonal cells, 4-index vectors: the library's own 3->4 conversion (float thirds), integer 4-index sets,
     #     and sets violating u+v+t = 0 (refused) ---
     for it in range(ctx.n(24, 200)):
@@ -1288,6 +1298,15 @@ def search(ctx, broken):
         tol = rng.choice([None] * 8 + [2.3e-5, 7e-9, [1.7e-6, 1.1e-8], (1.3e-4,), [1.1e-3, 2.3e-5]])
         ctx.stats.case('oracle:rotate', (fam, repr(np.asarray(arg).tolist()), tuple(spos), repr(tol)))
         _oracle_rotate(ctx, am, sysm, fam, spos, U, d, arg, form, accepted, 'rotate', tol=tol)
+    # the identity shortcut and one more matrix under each of the 8 pbc settings
+    for rep in range(ctx.n(2, 6) * scale):
+        for pbc in PBCS:
+            for U in (FIXED_U[0], rng.choice(FIXED_U[1:])):
+                sysm, fam, spos = gen_system(rng, am, far=rng.random() < 0.5, pbc=pbc,
+                                             history=gen_history(rng, pbc_ops=False) if rng.random() < 0.25 else None)
+                arg, form, accepted = gen_uvws_form(rng, U)
+                ctx.stats.case('oracle:rotate-pbc', (fam, repr(np.asarray(arg).tolist()), tuple(spos), tuple(pbc)))
+                _oracle_rotate(ctx, am, sysm, fam, spos, [list(r) for r in U], _det3(U), arg, form, accepted, 'rotate')
     # hexagonal cells with 4-index vectors
     for it in range(ctx.n(60, 300) * scale):
         sysm, fam, spos, U, d, arg, form = gen_hex_case(rng, am)
@@ -1402,8 +1421,11 @@ def gen_conv_case(rng, am, setting, mode='random'):
         # 1e-8 length units of a lattice point to be on it
         # (half of the time every component is small: the whole displacement stays below 0.01 length units, the range in
         # which a widened "is there an atom at the origin" test of the re-centring step would still bite)
-        mags = ([Fraction(1, 10 ** 5), Fraction(1, 10 ** 4), Fraction(3, 10 ** 4)] if rng.random() < 0.5 else
-                [Fraction(1, 10 ** 5), Fraction(1, 10 ** 3), Fraction(3, 10 ** 3), Fraction(1, 10 ** 2)])
+        # (values whose sums and differences, halved or divided by three - the relative coordinates in the 2x2x2 / 3x3x3
+        # primitive supercell rotate cuts out - are never a rung 1e-4 .. 1e-7 of rotate's tolerance ladder: an atom
+        # exactly one rung from a face is the documented knife edge of the ladder, see docs)
+        mags = ([Fraction(13, 10 ** 6), Fraction(17, 10 ** 5), Fraction(29, 10 ** 5)] if rng.random() < 0.5 else
+                [Fraction(13, 10 ** 6), Fraction(11, 10 ** 4), Fraction(29, 10 ** 4), Fraction(11, 10 ** 3)])
         shift = [rng.choice([-1, 1]) * rng.choice(mags) for _ in range(3)]
         stored = [tuple(t[k] + shift[k] for k in range(3)) for t in stored]
     # names of the two per-atom properties (a float and an integer), the periodicity flags (a flag other than fully
